@@ -167,3 +167,22 @@ Proof.
   split; [vm_compute; reflexivity|].
   eexists. split; [vm_compute; reflexivity|]. split; [left; reflexivity|]. vm_compute. reflexivity.
 Qed.
+
+Lemma demo_swap_facts : sem_facts demo_swap_sem demo_aug demo_swap.
+Proof.
+  split.
+  - intros a Ha args v _ Hs. typed_cases Ha Hs.
+  - intros op e t Ha. cbn in Ha. destruct Ha.
+Qed.
+
+Lemma demo_swap_ok :
+  guard_ok demo_swap = true /\ breaks_ok demo_swap = true /\ sem_facts demo_swap_sem demo_aug demo_swap /\
+  pprog_exec demo_swap_sem demo_aug 30 2 demo_swap = Some demo_swap_trace /\
+  exists c, transl demo_swap = Some c /\
+            (exists t e r, c_loop c = NDeclTmp 2 t e :: r) /\
+            cprog_exec demo_swap_sem demo_aug (info_of demo_swap) 30 2 true c = Some demo_swap_trace.
+Proof.
+  split; [vm_compute; reflexivity|]. split; [vm_compute; reflexivity|]. split; [exact demo_swap_facts|].
+  split; [vm_compute; reflexivity|].
+  eexists. split; [vm_compute; reflexivity|]. split; [eexists; eexists; eexists; reflexivity|]. vm_compute. reflexivity.
+Qed.
